@@ -1,8 +1,13 @@
 (* Property C19 — Deserialize never panics on corrupt or truncated bytes.
    Proved on the model of the framing and the tape reconstruction
    (Model/Serialize.v): for EVERY byte string the outcome is an error or a
-   result, never an out-of-range access and never non-termination. *)
-From SJ Require Import Model.Base Model.RefTables Model.Serialize Proofs.DeserSafe Tie.GoTablesTie Tie.SerializeTie.
+   result, never an out-of-range access and never non-termination; and on every
+   returned result plain traversal, MarshalJSON, Interface() and FindElement
+   neither index out of range nor run out of fuel (Proofs/ApiTotal*.v: the
+   iterator API on ARBITRARY tapes; Interface() needs one fact about the tape
+   that Deserialize is proved to establish, also into a reused destination). *)
+From SJ Require Import Model.Base Model.RefTables Model.Tape Model.Iter Model.Walk Model.Marshal Model.Serialize Proofs.DeserSafe
+     Proofs.ApiTotalBase Proofs.ApiTotalWalk Proofs.ApiTotalFinal Tie.GoTablesTie Tie.SerializeTie.
 Open Scope N_scope.
 
 Theorem C19_deser_blob_no_crash : forall src, deser_blob src <> DCrash /\ deser_blob src <> DFuel.
@@ -22,5 +27,28 @@ Proof. destruct tie_serializer_consts as (_ & B & _ & _ & _ & _ & _ & H). exact 
 Theorem C19_tie_open_close : tab_diff gen.Tables.gen_tagOpenToClose tagOpenToClose_ref 256 = [].
 Proof. exact tie_tagOpenToClose. Qed.
 
+
+(* the second sentence: on a returned result, traversal and marshalling
+   terminate without panic *)
+Theorem C19_deserialize_result_total : forall src t s m, deser_blob src = DOk t s m ->
+  let pj := {| pj_tape := t; pj_strings := s; pj_msg := m |} in
+  fine (walk_doc pj) /\ fine (marshal_iter pj (iter0 pj)) /\ fine (interface_doc pj) /\
+  forall path, fine (find_element pj (iter0 pj) path).
+Proof. exact deserialize_result_total. Qed.
+
+(* the same for the reconstruction alone, into ANY destination tape below 2^56 words
+   (a reused destination with stale words included) *)
+Definition C19_deser_core_result_total := deser_core_result_total.
+
+(* on arbitrary tapes (no hypothesis at all): plain traversal, MarshalJSON, FindElement *)
+Theorem C19_any_tape_walk_marshal_find : forall pj,
+  fine (walk_doc pj) /\ fine (marshal_iter pj (iter0 pj)) /\ forall path, fine (find_element pj (iter0 pj) path).
+Proof. intros pj. split; [apply walk_doc_fine|]. split; [apply marshal_doc_fine|apply find_element_doc_fine]. Qed.
+(* Interface(): under the one condition Deserialize establishes; and a tape violating it on
+   which the model runs out of fuel (the code loops): not a Deserialize result *)
+Definition C19_interface_doc_fine := interface_doc_fine.
+Definition C19_interface_needs_forward_arrays := backarr_interface.
+
 Print Assumptions C19_deser_blob_no_crash.
+Print Assumptions C19_deserialize_result_total.
 Print Assumptions C19_deser_core_no_crash.
